@@ -93,10 +93,17 @@ def _evaluate2(case, stages, viols, info):
                 except CaseTimeout:
                     raise
                 except Exception as e:  # noqa: BLE001
+                    if method == "disk" and methods[0] == "tasks" and not any(v["kind"].startswith("opt_raises") for v in viols):
+                        # run-dependent row order of the disk shuffle (KF-disk-shuffle-row-order) makes label-based steps after it
+                        # (loc on an unsorted index...) fail in some runs only; crash-freedom is decided under the tasks method above
+                        info["disk_only_raise"] = short(e)
+                        continue
                     viols.append({"kind": "opt_raises:" + exc_kind(e), "detail": f"stage={stage} method={method}: {short(e)}"})
                     continue
                 if typ.defined and not typ.approx:
-                    reason = compare(ref, res, ordered=typ.ordered, labelled=typ.labelled)
+                    # the disk (partd) shuffle hands rows back in a run-dependent order (recorded finding
+                    # KF-disk-shuffle-row-order): under that method results are compared as multisets
+                    reason = compare(ref, res, ordered=typ.ordered and method != "disk", labelled=typ.labelled)
                 else:
                     reason = _schema_only(ref, res)
                 if reason:
@@ -154,5 +161,6 @@ def run(ctx):
         "reference = expr.lower_completely() executed by dask.local.get_sync",
         "value comparison only where the query defines the value (typing in mc/ops.py); otherwise container+labels only",
         "tables are the fixed tables of mc/tables.py",
+        "under the disk (partd) shuffle results are compared as multisets and exceptions are only counted when the tasks method fails too: its row order is run-dependent (KF-disk-shuffle-row-order)",
     ]
     return ctx.finish(evaluate, explore.shrink_prog, explore.prog_key)
